@@ -540,9 +540,15 @@ func (e *Engine) binop(st *State, op token.Token, xv, yv Value, xt types.Type, r
 			return e.wrap(rt, Mul(x, y))
 		case token.QUO:
 			e.oblige(st, "safe", "div_by_zero", Neq(y, IntLit(0)), pos)
+			if _, signed := intRange(xt); !signed {
+				return T("(div "+x.S+" "+y.S+")", SInt)
+			}
 			return e.wrap(rt, e.tdiv(x, y))
 		case token.REM:
 			e.oblige(st, "safe", "div_by_zero", Neq(y, IntLit(0)), pos)
+			if _, signed := intRange(xt); !signed {
+				return T("(mod "+x.S+" "+y.S+")", SInt)
+			}
 			return Sub(x, Mul(y, e.tdiv(x, y)))
 		case token.LSS:
 			return Lt(x, y)
